@@ -335,6 +335,54 @@ def ledger_run(acc, cseed, alter, tmpdir):
         wipes = [e for e in dev.log if e and e[0] == "wipe"]
         if len(wipes) != 1 or len(wipes[0][1]) != 32 or wipes[0][2] != pin.encode():
             acc.violation("onboarding-did-not-send-seed-and-pin", {"wipes": len(wipes)}, case)
+        # ---- a second attestation, later, starting from the file the first one wrote (it
+        # holds the device and attestation key certificates the command needs - and the ui
+        # and signer elements of the first run): the device has moved on meanwhile (other UD
+        # value, best block, last transaction, authorized signer); what is written and
+        # verified is what the device says now
+        if random.Random(cseed ^ 0x0d0d).random() < 0.4:
+            ud2 = gen_ud(rng, acc, True)
+            gd.best_block = rng.randbytes(32)
+            gd.last_tx = rng.randbytes(8)
+            gd.auth_signer_hash = rng.randbytes(32)
+            gd.auth_signer_iter = rng.randrange(65536)
+            second = rng.choice([final, os.path.join(tmpdir, "att-second.json")])
+            if os.path.exists(second) and second != final:
+                os.unlink(second)
+            dev.mode = MODE_BOOTLOADER
+            dev.unlocked = False
+            acc.count("second_attestations_starting_from_the_first_ones_file")
+            with AdminEnv(dev, "ledger") as ae3:
+                ok3, o3, exc3 = run_step(acc, ae3, via_cli, "attestation", do_attestation,
+                                         options(pin=pin, output_file_path=second,
+                                                 attestation_certificate_file_path=final,
+                                                 attestation_ud_source=str(ud2)), "")
+                if ok3:
+                    ok3, o3, exc3 = run_step(
+                        acc, ae3, via_cli, "verify", do_verify_attestation,
+                        options(attestation_certificate_file_path=second,
+                                pubkeys_file_path=pkjson,
+                                root_authority=g1.pub65(gd.root).hex()), "")
+            if not ok3:
+                acc.violation("genuine-ledger-flow-failed-at-second-attestation",
+                              {"exc": repr(exc3)[:300]}, case)
+                return
+            want2 = {("UD value", 0): ud2.hex32,
+                     ("Authorized signer hash", 0): gd.auth_signer_hash.hex(),
+                     ("Authorized signer iteration", 0): str(gd.auth_signer_iter)}
+            if framing == "current":
+                want2[("UD value", 1)] = ud2.hex32
+                want2[("Best block", 0)] = gd.best_block.hex()
+                want2[("Last transaction signed", 0)] = gd.last_tx.hex()
+            for (lab, nth), w in want2.items():
+                acc.count("printed_values_compared")
+                if printed(o3, lab, nth) != w:
+                    acc.violation("printed-value-differs:ledger:%s:second-attestation" %
+                                  lab.split(" (")[0], {"got": printed(o3, lab, nth), "want": w},
+                                  case)
+                    return
+            final = second
+            ud = ud2
         # ---- the attestation command run again over its own output, and turned down (the
         # device does not echo, is not onboarded any more, or is in no mode to be unlocked):
         # the file that verified a moment ago is what it was
